@@ -1,19 +1,44 @@
 (* PropsC06.v — C06: Struct -> Config -> struct is the identity.
    Statements only; proofs are in ProofsReify.v.
 
-   PARTIAL.  Proved: EVERY flat struct - any number of exported fields of the kinds bool, string,
-   signed and unsigned integers of every width up to 64 bits, float64 (no NaN), with distinct
-   names - merged into an empty config and unpacked into a zero value of the same type comes
-   back identical (Normalize.v composed with Reify.v); and the leaf of that round trip.
-   NOT proved: config tags (renames, dotted names, inline, ignore), nested structs, pointers,
-   collections, float32 and durations (the latter travel as text through
-   time.Duration.String / time.ParseDuration, oracles supplied by the harness).  They are
-   decided by the correspondence run (model of Merge-from-struct and Unpack against the
-   implementation, and the round-trip equality on the implementation's own results).  F15 is
-   the known deviation. *)
+   PARTIAL.  Proved: EVERY struct whose exported fields, with distinct names, are of the kinds
+   bool, string, signed and unsigned integers of every width up to 64 bits, float64 (no NaN), or
+   are again such structs - to any nesting depth and any width - merged into an empty config and
+   unpacked into a zero value of the same type comes back identical (Normalize.v composed with
+   Reify.v; c06_nested_struct_roundtrip, induction over the nesting depth); the flat case with
+   its own statement; and the leaf of that round trip.
+   NOT proved: config tags (renames, dotted names, inline, ignore), pointers, collections,
+   float32 and durations (the latter travel as text through time.Duration.String /
+   time.ParseDuration, oracles supplied by the harness).  They are decided by the correspondence
+   run (model of Merge-from-struct and Unpack against the implementation, and the round-trip
+   equality on the implementation's own results).  F15 is the known deviation. *)
 From Ucfg Require Import Base ParseInt Consts Field Tree PathOps Merge OTree F64 Conv VarParse Normalize Reify
-     ProofsNormData ProofsReify ProofsRoundStruct.
+     ProofsNormData ProofsReify ProofsRoundStruct ProofsRoundNested.
 Local Open Scope Z_scope.
+
+Theorem c06_nested_struct_roundtrip : forall o ro n fs fuel,
+  r_p ro = n_p o -> p_sep (n_p o) = "" -> n_varexp o = false ->
+  Forall (fld_ok o (RT o n)) fs -> NoDup (map fkey fs) -> (need n <= fuel)%nat ->
+  let x := struct_side fs in
+  exists cfg, normalize_value o (s_g x) = Ok (cfg, None) /\
+              reify_struct (S (S fuel)) ro (s_t x) (s_z x) cfg = Ok (s_v x).
+Proof. exact nested_struct_roundtrip. Qed.
+Print Assumptions c06_nested_struct_roundtrip.
+
+Theorem c06_nested_struct_example :
+  let o := {| n_p := {| p_sep := ""; p_maxIdx := 1024; p_numKeys := false; p_escape := false |};
+              n_varexp := false; n_m := {| m_h := 0%N; m_ft := None |} |} in
+  let ro := {| r_p := n_p o; r_h := 0%N; r_vo := {| vo_dur := fun _ => None |}; r_ft := [] |} in
+  let srv := struct_side [("Port", prim_side (KInt 64) (CI 8080)); ("Name", prim_side KString (CS "a.b,${c}"))] in
+  let deep := struct_side [("In", struct_side [("V", prim_side (KUint 8) (CU 255)); ("W", prim_side (KInt 8) (CI (-128)))])] in
+  let top := [("Srv", srv); ("Debug", prim_side KBool (CB true)); ("Deep", deep)] in
+  Forall (fld_ok o (RT o 2)) top /\ NoDup (map fkey top) /\
+  (exists cfg, normalize_value o (s_g (struct_side top)) = Ok (cfg, None) /\
+               reify_struct 10 ro (s_t (struct_side top)) (s_z (struct_side top)) cfg = Ok (s_v (struct_side top))) /\
+  s_v (struct_side top)
+  = GStructV [GStructV [GP (CI 8080); GP (CS "a.b,${c}")]; GP (CB true); GStructV [GStructV [GP (CU 255); GP (CI (-128))]]].
+Proof. exact nested_roundtrip_example. Qed.
+Print Assumptions c06_nested_struct_example.
 
 Theorem c06_flat_struct_roundtrip_partial : forall o ro f2 fs,
   r_p ro = n_p o -> p_sep (n_p o) = "" -> n_varexp o = false ->
